@@ -7,6 +7,7 @@ CONSTANTS Kind = "channel"
           HasPub = TRUE
           Slot = 0
           SidOff = 0
+          AsImplemented = FALSE
           LibSource = TRUE
 INVARIANT NoClauseFails
 INVARIANT DeliveredIsPrefixOfHanded
